@@ -1,3 +1,22 @@
-def run_reg(chk, B, table_auth):
-    """registration half of C10 (filled in once the registration model exists)"""
-    return
+"""registration half of C10: all 256 flag bytes x require_uv x require_up, authenticator data laid out as the flags announce"""
+from harness import fw, impl, regsim, regrun
+
+
+def run_reg(chk, A, table_auth):
+    B = regrun.RegBench(chk, type("BR", (), {"runner_ok": A.R is not None})(), oracle_obj=A.O)
+    for f in range(256):
+        for ruv in (False, True):
+            for rup in (False, True):
+                s = regsim.RScn("none" if f % 5 else "packed-self", "ES256-P256" if f % 3 else "EdDSA")
+                s.flags, s.require_uv, s.require_up = f, ruv, rup
+                pd, reg = regsim.build(s)
+                up, uv, be, bs, at = f & 1, f & 4, f & 8, f & 16, f & 64
+                exp = (bool(up) or not rup) and (bool(uv) or not ruv) and bool(at) and not (bs and not be)
+                il, ml = B.run_case(regrun.policy_of(pd), reg, "record" if f % 2 else "dict", "accept" if exp else "reject", f"create flags={f:#04x} uv_required={ruv} up_required={rup}", scn=s)
+                if il.startswith("OK"):
+                    t = il.split()
+                    got = (t[9] == "T", t[10] == "T", t[7] == "T")     # multi_device, backed_up, user_verified
+                    want = (bool(be), bool(bs), bool(uv))
+                    if got != want:
+                        chk.violation(f"registration: reported fields {got} != bits {want} for flags {f:#04x}", f"reg-fields flags={f:#04x}", {"flags": f, "impl": il[:300]})
+    B.close()
